@@ -113,3 +113,47 @@ func TestReplaySearchStoreLoadBehaviour(t *testing.T) {
 	}
 	fmt.Printf("BOUNDED-CASES: %d (rule set, fact state, round) combinations, no difference between original and loaded knowledge base\n", n)
 }
+
+// failing writer: a writer that refuses exactly one write call (and accepts all others), one that refuses every call from the k-th on,
+// and one that writes only half of the k-th buffer (reporting the error io.Writer demands) must each make the store return an error -
+// for EVERY index k of the writer's calls (C12: "a store whose writer fails at any write"). Replay family of the write-side obligations.
+type rtFailingWriter struct {
+	calls, failAt int
+	mode          int // 0: only call failAt fails, 1: every call from failAt on fails, 2: call failAt is a short write
+}
+
+func (w *rtFailingWriter) Write(p []byte) (int, error) {
+	k := w.calls
+	w.calls++
+	switch {
+	case w.mode == 0 && k == w.failAt, w.mode == 1 && k >= w.failAt:
+		return 0, fmt.Errorf("refused write call %d", k)
+	case w.mode == 2 && k == w.failAt:
+		return len(p) / 2, fmt.Errorf("short write at call %d", k)
+	}
+	return len(p), nil
+}
+
+func TestReplaySearchFailingWriter(t *testing.T) {
+	n := 0
+	for ci, grl := range rtCorpus[:4] {
+		lib := ast.NewKnowledgeLibrary()
+		if err := builder.NewRuleBuilder(lib).BuildRuleFromResource("K", "1", pkg.NewBytesResource([]byte(grl))); err != nil {
+			t.Fatalf("harness: corpus entry %d does not build: %v", ci, err)
+		}
+		count := &rtFailingWriter{failAt: -1}
+		if err := lib.StoreKnowledgeBaseToWriter(count, "K", "1"); err != nil {
+			t.Fatalf("CONFIRMED: storing corpus entry %d to a writer that accepts everything fails: %v; rule set: %s", ci, err, grl)
+		}
+		for mode := 0; mode <= 2; mode++ {
+			for k := 0; k < count.calls; k++ {
+				n++
+				w := &rtFailingWriter{failAt: k, mode: mode}
+				if err := lib.StoreKnowledgeBaseToWriter(w, "K", "1"); err == nil && w.calls > k {
+					t.Fatalf("CONFIRMED: the writer failed at its call %d of %d (mode %d: 0 = only that call refused, 1 = refused from there on, 2 = short write) but StoreKnowledgeBaseToWriter returned nil; rule set: %s", k, count.calls, mode, grl)
+				}
+			}
+		}
+	}
+	fmt.Printf("BOUNDED-CASES: %d (rule set, failing call, failure mode) combinations, every failure reported\n", n)
+}
